@@ -294,6 +294,12 @@ impl Server {
         );
     }
 
+    /// Verification hook: read-only access to this server's statistics recorder.
+    #[cfg(roughenough_verif)]
+    pub fn stats_verif(&self) -> &dyn ServerStats {
+        self.stats_recorder.as_ref()
+    }
+
     pub fn thread_name(&self) -> &str {
         &self.thread_name
     }
